@@ -33,7 +33,8 @@ Record dep := {
   d_code : res;
   d_type : res;
   d_dyn : bool;
-  d_deno_types : bool    (* maybe_deno_types_specifier.is_some() *)
+  d_deno_types : bool;   (* maybe_deno_types_specifier.is_some() *)
+  d_attr : N             (* maybe_attribute_type: 0 = none, 1 json, 2 text, 3 bytes, 4 css, >= 5 other *)
 }.
 
 Inductive mkind := MkJs | MkJson | MkWasm | MkNpm | MkNode | MkExternal.
@@ -232,11 +233,11 @@ Definition dec_res (s : sexp) : option res :=
   end.
 Definition dec_dep (s : sexp) : option dep :=
   match s with
-  | L [A text; fl; c; t; dy; dt] =>
+  | L [A text; fl; c; t; dy; dt; A atr] =>
       do fl' <- as_bool fl; do c' <- dec_res c; do t' <- dec_res t; do dy' <- as_bool dy;
       do dt' <- as_bool dt;
       Some {| d_text := text; d_filelike := fl'; d_code := c'; d_type := t'; d_dyn := dy';
-              d_deno_types := dt' |}
+              d_deno_types := dt'; d_attr := atr |}
   | _ => None
   end.
 Definition dec_deps := as_list_of dec_dep.
